@@ -65,7 +65,8 @@ def subscribe(
     Raises:
         RuntimeError: on invalid operation.
     """
-    instrumentation = instrumentation or Instrumentation()
+    if instrumentation is None:
+        instrumentation = Instrumentation()
 
     operation, root_type = get_operation_with_type(
         schema, document, operation_name
